@@ -11,7 +11,7 @@ def vfn(ty, name, root=None):
 
 
 def txt(n):
-    return A.unparse(n).replace(" ", "")
+    return A.ftxt(n)
 
 
 def field_writes(fn):
